@@ -178,7 +178,10 @@ func implAnnot(in json.RawMessage) (any, error) {
 // ---------------------------------------------------------------------------------------------
 // generator: grammar-directed, mostly-valid lines plus a malformed / mutated stream
 
-var annotNames = []string{"Route", "Method", "Query", "Path", "Header", "Body", "Description", "Security", "Tag", "Response", "ErrorResponse", "Hidden", "Deprecated", "X_y9", "a"}
+var annotNames = []string{"Route", "Method", "Query", "Path", "Header", "Body", "Description", "Security", "Tag", "Response", "ErrorResponse", "Hidden", "Deprecated", "X_y9", "a",
+	// names that differ from a known one only in letter case are annotations of THEIR OWN name: `@description` is not
+	// `@Description` (the entity description stays with the free text)
+	"description", "DESCRIPTION", "Description", "deprecated", "route"}
 
 func genValue(r *rng.R) string {
 	alpha := []string{"a", "b", "id", "Z9", "_", "-", "/", "\\", "{", "}", " ", "{id}", "/users", "x y"}
